@@ -71,6 +71,11 @@ func init() {
 	intrinsics["verifSymStr"] = func(e *Exec, fn *ssa.Function, a []Value) []Value {
 		return []Value{e.fresh(argStr(e, a[0]), StrSort)}
 	}
+	intrinsics["verifSymQty64"] = func(e *Exec, fn *ssa.Function, a []Value) []Value {
+		t := e.fresh(argStr(e, a[0]), IntSort)
+		e.assertPC(And(IGe(t, IntConst(new(bigInt).Neg(pow2(63)))), ILt(t, IntConst(pow2(63)))))
+		return []Value{t}
+	}
 	intrinsics["verifSymDuration"] = func(e *Exec, fn *ssa.Function, a []Value) []Value {
 		t := e.fresh(argStr(e, a[0]), IntSort)
 		e.assertPC(And(IGe(t, IntConst(new(bigInt).Neg(pow2(63)))), ILt(t, IntConst(pow2(63)))))
@@ -296,7 +301,14 @@ func (e *Exec) symValue(t types.Type, name string) Value {
 			e.assertPC(And(IGe(d, IntConst(new(bigInt).Neg(pow2(63)))), ILt(d, IntConst(pow2(63)))))
 			return d
 		}
-		if w, _, ok := intInfo(t); ok {
+		if w, signed, ok := intInfo(t); ok {
+			if w == 64 && signed && isQuantityName(name) {
+				// quantities (voting power) are integer shadows: arithmetic on them stays in linear integer
+				// arithmetic instead of mixing bit-vectors and integers (DESIGN §4)
+				q := e.fresh(name, IntSort)
+				e.assertPC(And(IGe(q, IntConst(new(bigInt).Neg(pow2(63)))), ILt(q, IntConst(pow2(63)))))
+				return q
+			}
 			return e.fresh(name, BV(w))
 		}
 		if isBool(t) {
@@ -383,6 +395,10 @@ func (e *Exec) symValue(t types.Type, name string) Value {
 	}
 	e.unsupported("symbolic value of type " + t.String() + " (" + name + ")")
 	return nil
+}
+
+func isQuantityName(name string) bool {
+	return strings.Contains(name, "Power") || strings.HasSuffix(name, ".power")
 }
 
 // sliceKey strips store-entry decorations: "Params.BridgeExecutors" from "st.Params#1.BridgeExecutors"
